@@ -334,6 +334,25 @@ def driveC16 (args : List String) : String :=
     | none => "bad-op"
   | _ => "bad-op"
 
+def driveC19 (args : List String) : String :=
+  match args with
+  | [svc, legacy, methods] =>
+    match hexArg (argVal svc "svc") with
+    | some svcB =>
+      if argVal legacy "legacy" != "1" then "" else
+      let marg := argVal methods "methods"
+      let ms : List Stubgen.Method := if marg.isEmpty then [] else
+        (marg.splitOn ",").filterMap fun item =>
+          match item.splitOn ":" with
+          | [n, cs, ss] => (hexArg n).map fun nb => ⟨nb, cs == "1", ss == "1"⟩
+          | _ => none
+      let bs := Stubgen.bindings svcB ms
+      ";".intercalate (bs.map fun b =>
+        let sh := match b.shape with | .unary => "unary" | .sstream => "sstream" | .stream => "stream" | .unknown => "unknown"
+        s!"{showBytes b.name}:{sh}:{showBytes b.path}:{b.index}")
+    | none => "bad-op"
+  | _ => "bad-op"
+
 def dispatch (line : String) : String :=
   match (line.splitOn " ").filter (· ≠ "") with
   | "C14" :: rest => driveC14 rest
@@ -345,6 +364,7 @@ def dispatch (line : String) : String :=
   | "C15" :: rest => driveC15 rest
   | "C17" :: rest => driveC17 rest
   | "C16" :: rest => driveC16 rest
+  | "C19" :: rest => driveC19 rest
   | _ => "bad-op"
 
 partial def loop (h : IO.FS.Stream) (out : IO.FS.Stream) : IO Unit := do
